@@ -12,6 +12,13 @@ import sys
 HERE = os.path.dirname(os.path.dirname(os.path.abspath(__file__)))
 
 EMPHASIS = {
+    'geometry': ("This round is about SPECIAL BUT LEGITIMATE GEOMETRY: each change must be invisible on ordinary grids and manifest only for a grid that is "
+                 "unusual yet perfectly valid - a domain that starts exactly at r = 0, touches theta = 0 or theta = pi, spans exactly 2*pi (or deliberately less), has a single "
+                 "cell or exactly two cells along an axis, has extremely elongated or extremely graded cells (ratio 1e6 between neighbours), lies at negative coordinates "
+                 "(x from -5 to -1) or at a large offset (x in [1e6, 1e6 + 1]: cancellation), is built with the (N, L) form vs the face-position form, has very many "
+                 "cells along one axis and one along another, or whose first and last cells differ strongly. Typical culprits: an index that is only right for N >= 2 or "
+                 "N >= 3, a metric factor taken at the wrong end cell, a formula that divides by r or sin(theta) without need, a difference of large numbers, an 'is it "
+                 "uniform?' or 'is it the axis?' test with a tolerance."),
     'hard': ("This round is about HARD-TO-SEE defects: at least one of your two changes must be of the kind 'two cooperating sites that each look fine alone' "
              "(e.g. a cache or flag introduced in one function and not invalidated in another; a helper whose contract is changed subtly and one caller not updated; an "
              "optimisation that is only valid for uniform grids / equal end cells / N>=2 / positive velocities and silently used otherwise), or 'needs a multi-step sequence "
